@@ -50,11 +50,46 @@ CORE_SPECS = [
     ('palin-unmarked', 'S->a S a | a'),
 ]
 
-def core_grammars():
+# no '.' here: write_diag_str marks the position inside an item with ". ", which cannot be told from a term named "." when the text is read back
+WIDE_CHARS = [c for c in 'abcdefghijklmnopqrstuvwxyzABCDEFGHIJKLMNOPQRSTUVWXYZ0123456789!#$%&*+,-/:;<=>?@^_`|~[]{}']
+
+def wide_grammars():
+    """grammars with more than 64 terms / nonterminals: the bit sets over terms and nonterminals span several machine words"""
+    out = []
+    # (1) 80 terms: S -> L ; L -> eps | L I ; I -> t_k t_(k+1) | '(' L ')' for many k, with lookahead-dependent reductions
+    terms = [Term('c', c) for c in WIDE_CHARS[:78]] + [Term('c', '('), Term('c', ')')]
+    lp, rp = 78, 79
+    rules = [Rule(0, [('n', 1)]), Rule(1, []), Rule(1, [('n', 1), ('n', 2)]), Rule(2, [('t', lp), ('n', 1), ('t', rp)])]
+    for k in range(0, 78, 2): rules.append(Rule(2, [('t', k), ('n', 3), ('t', k + 1)]))
+    rules += [Rule(3, []), Rule(3, [('t', 70), ('n', 3)]), Rule(3, [('t', 5)])]
+    g = Grammar(['Start', 'List', 'Item', 'Opt'], terms, rules, 0, note='core:wide-terms'); out.append(g)
+    # (2) 70 nonterminals in a unit chain with nullable branches: A0 -> A1 x | A1 ; ... ; A69 -> y | eps-ish
+    n = 70
+    nts = ['Nt%d' % i for i in range(n)]
+    terms = [Term('c', 'x'), Term('c', 'y'), Term('c', 'z')]
+    rules = []
+    for i in range(n - 1):
+        rules.append(Rule(i, [('n', i + 1)]))
+        if i % 7 == 3: rules.append(Rule(i, [('t', 2), ('n', i + 1), ('t', 0)]))
+    rules.append(Rule(n - 1, [('t', 1)])); rules.append(Rule(n - 1, []))
+    g = Grammar(nts, terms, rules, 0, note='core:wide-nonterminals'); out.append(g)
+    # (3) the LR(1)-not-LALR shape replicated over many terms (many distinct lookahead sets beyond bit 64)
+    terms = [Term('c', c) for c in WIDE_CHARS[:72]]
+    rules = []
+    nts = ['Start', 'Ee', 'Ff']
+    for k in range(0, 68, 4):
+        a, b, c, d = k, k + 1, k + 2, k + 3
+        rules += [Rule(0, [('t', a), ('n', 1), ('t', c)]), Rule(0, [('t', a), ('n', 2), ('t', d)]), Rule(0, [('t', b), ('n', 2), ('t', c)]), Rule(0, [('t', b), ('n', 1), ('t', d)])]
+    rules += [Rule(1, [('t', 70)]), Rule(2, [('t', 70)])]
+    g = Grammar(nts, terms, rules, 0, note='core:wide-lr1-not-lalr'); out.append(g)
+    return out
+
+def core_grammars(wide=False):
     out = []
     for name, spec in CORE_SPECS:
         g = simple(spec); g.note = 'core:' + name
         out.append(g)
+    if wide: out += wide_grammars()
     return out
 
 # ------------------------------------------------------------------ random grammars
